@@ -451,7 +451,15 @@ class Fn:
         return ar - br * z3.ToReal(q)
 
     def binop(self, op, a, b):
+        """arithmetic with propagation of the declared carrier type (Decimal / float) of symbolic operands"""
         pa, pb = getattr(a, 'pytype', None), getattr(b, 'pytype', None)
+        res = self._binop(op, a, b, pa, pb)
+        pt = float if float in (pa, pb) else (decimal.Decimal if decimal.Decimal in (pa, pb) else None)
+        if pt is not None and is_z3(res) and not z3.is_bool(res):
+            return Sym(res, pt)
+        return res
+
+    def _binop(self, op, a, b, pa, pb):
         a, b = unwrap(a), unwrap(b)
         if isinstance(op, (ast.FloorDiv, ast.Mod)) and (pa in (decimal.Decimal, float) or pb in (decimal.Decimal, float)):
             return self.typed_divmod(op, a, b, pa, pb)
@@ -549,9 +557,11 @@ class Fn:
             if isinstance(e.op, ast.Not):
                 c = self.cond(e.operand, st)
                 return (not c) if isinstance(c, bool) else z3.Not(c)
-            v = unwrap(self.expr(e.operand, st))
+            v0 = self.expr(e.operand, st)
+            v = unwrap(v0)
             if isinstance(e.op, ast.USub):
-                return -v
+                pt = getattr(v0, 'pytype', None)
+                return Sym(-v, pt) if pt in (decimal.Decimal, float) and is_z3(v) else -v
             if isinstance(e.op, ast.UAdd):
                 return v
         if isinstance(e, ast.BinOp):
@@ -726,8 +736,10 @@ class Fn:
                 return f(a, b)
             return z3.If(a <= b, a, b) if f is min else z3.If(a >= b, a, b)
         if f is abs:
+            pt = getattr(args[0], 'pytype', None)
             a = unwrap(args[0])
-            return abs(a) if isinstance(a, int) else z3.If(a >= 0, a, -a)
+            r = abs(a) if isinstance(a, int) else z3.If(a >= 0, a, -a)
+            return Sym(r, pt) if pt in (decimal.Decimal, float) and is_z3(r) else r
         if f is sum and len(e.args) == 1 and isinstance(e.args[0], ast.GeneratorExp):
             return self.gen_sum(e.args[0], st)
         if inspect.isfunction(f):
